@@ -16,6 +16,8 @@ package main
 // polynomial normal form (poly.go), e.g. the argument page+i is page0 + T.
 
 import (
+	"fmt"
+	"os"
 	"go/token"
 	"go/types"
 	"strings"
@@ -70,8 +72,10 @@ func (g *IG) loopFormAt(z *Polyizer, b *ssa.BasicBlock) (*LoopForm, bool) {
 		step, okIV, nInit := int64(0), true, 0
 		for i, e := range phi.Edges {
 			if !body[h.Preds[i]] {
+				if init == nil || init != e {
+					nInit++ // (several entries with the same value are one start value)
+				}
 				init = e
-				nInit++
 				continue
 			}
 			if dead[i] {
@@ -208,6 +212,54 @@ func (g *IG) loopFormAt(z *Polyizer, b *ssa.BasicBlock) (*LoopForm, bool) {
 		}
 		if !isC || k == 0 {
 			continue // not a test of the induction variables
+		}
+		// A rotated loop (`for i := range n`, do-while): the test sits at the end
+		// of the body and decides about iteration T+1. With an entry guard that is
+		// the same test for T = -1 it is a header test shifted by one iteration.
+		if blk.Succs[stayK] == h && blk != h {
+			guarded := false
+			want := d0.add(polyConst(k), -1)
+			for i, p := range h.Preds {
+				_ = i
+				if body[p] {
+					continue
+				}
+				gi, ok := p.Instrs[len(p.Instrs)-1].(*ssa.If)
+				if !ok || len(p.Succs) != 2 || p.Succs[0] == p.Succs[1] {
+					// no test: fine when the guard is a constant that holds (0 < 4 is
+					// folded away by the compiler)
+					if wk, isK := want.isConst(); isK && wk > 0 {
+						guarded = true
+						continue
+					}
+					guarded = false
+					break
+				}
+				gf, ok := condFact(gi.Cond, p.Succs[0] == h)
+				if !ok || gf.Y == nil {
+					guarded = false
+					break
+				}
+				save := z.env
+				z.env = lf.save
+				gd := diffOfFact(z, gf)
+				z.env = save
+				if os.Getenv("FFC_DBG_LOOP") != "" {
+					fmt.Fprintf(os.Stderr, "LOOP rotated guard gd=%v want=%v fact %v %v %v\n", gd, want, gf.X, gf.Op, gf.Y)
+				}
+				if gd != nil && gd.equal(want) {
+					guarded = true
+				} else {
+					guarded = false
+					break
+				}
+			}
+			if !guarded {
+				tests = append(tests, g.Idx[ifi], -1) // the body runs at least once: no closed form
+				lf.Exit = g.Idx[ifi]
+				continue
+			}
+			d0 = want
 		}
 		tests = append(tests, g.Idx[ifi])
 		switch {
@@ -564,4 +616,33 @@ func (lf *LoopForm) otherExits(g *IG) []*ssa.BasicBlock {
 		}
 	}
 	return out
+}
+
+// diffOfFact: the quantity that is positive exactly when the comparison holds
+// (for integers): y - x for x < y, y - x + 1 for x <= y, and so on; nil for
+// other comparisons.
+func diffOfFact(z *Polyizer, f Fact) Poly {
+	if f.Y == nil || !isIntegral(f.X.Type()) {
+		return nil
+	}
+	l, r := z.Of(f.X), z.Of(f.Y)
+	switch f.Op {
+	case token.LSS:
+		return r.add(l, -1)
+	case token.GTR:
+		return l.add(r, -1)
+	case token.LEQ:
+		return r.add(l, -1).add(polyConst(1), 1)
+	case token.GEQ:
+		return l.add(r, -1).add(polyConst(1), 1)
+	case token.NEQ:
+		// an unsigned value != 0 is > 0 (the normal form of 0 < x and x >= 1)
+		if isZeroConst(f.Y) && isUnsignedInt(f.X.Type()) {
+			return l
+		}
+		if isZeroConst(f.X) && isUnsignedInt(f.Y.Type()) {
+			return r
+		}
+	}
+	return nil
 }
